@@ -17,8 +17,14 @@ except Exception:
 def is_known(l):
     return any(("rule=" + r + " construct=" + c + " at ") in l for r, c in known_open)
 def cell(d):
-    p = subprocess.run([exe, "-prop", "all", "-overlaypatch", os.path.join(d, "patch.diff"), "-nocontrols", "-verif", V], capture_output=True, text=True)
-    return d, [l for l in (p.stdout + p.stderr).splitlines() if (l.startswith(("VIOLATION", "BROKEN")) or "stale" in l) and not is_known(l)]
+    p = subprocess.run([exe, "-prop", "all", "-overlaypatch", os.path.join(d, "patch.diff"), "-nocontrols", "-verif", V], capture_output=True, text=True, errors="replace")
+    moved = []
+    try:
+        moved = json.load(open(os.path.join(d, "meta.json"))).get("moves_known_finding", [])
+    except Exception:
+        pass
+    return d, [l for l in (p.stdout + p.stderr).splitlines() if (l.startswith(("VIOLATION", "BROKEN")) or "stale" in l) and not is_known(l)
+               and not any(("rule=" + r + " ") in l for r in moved)]
 bad = 0
 with cf.ThreadPoolExecutor(max_workers=8) as ex:
     for d, lines in ex.map(cell, dirs):
